@@ -18,7 +18,7 @@ def run(tier):
         raise ToolError("Matrix.tla printed no table")
     ops = sorted(o["op"] for o in table[0]["ops"])
     wd = workdir("c18")
-    maxlen = 1100 if thorough else 400
+    maxlen = 2200 if thorough else 400
     lines = {}
     for cfg in CONFIGS:
         t = os.path.join(wd, "transcript_%s.txt" % cfg)
